@@ -35,7 +35,7 @@ def gen(ctx):
         learner = "percolator" if k % 3 == 2 else "transparent"
         base = {"fn": "pipeline", "files": files, "folds": rng.choice([2, 3, 4]), "seed": rng.randint(0, 10 ** 6),
                 "test_fdr": "0.5", "train_fdr": 0.5 if learner == "percolator" else 1.0, "learner": learner,
-                "subset_max_train": None, "est_mode": "decision", "confidence": True}
+                "subset_max_train": None, "est_mode": "decision", "confidence": True, "tiebreak": True}
         variants = []
         sizes = [1, 2, 3, 7, nmax - 1, nmax, nmax + 1]
         for name in ("confidence", "mergesort", "predict", "trainread", "colscan", "rowscan"):
@@ -85,6 +85,7 @@ def _canon(obs, learner):
     if obs.get("error"):
         return {"error": obs["error"]}
     return {"features": obs["features"], "scores": obs["scores"], "descs": obs["descs"], "conf": obs["conf"],
+            "conf_scores": obs.get("conf_scores"),
             "leftovers": obs["leftovers"], "folds": obs["scored_ids"] if learner == "transparent" else None}
 
 
@@ -117,7 +118,7 @@ def _equal(x, y, exact):
         return "folds"
     if sorted(x["conf"]) != sorted(y["conf"]):
         return "result-files"
-    if _has_ties(x["scores"]) or not exact:
+    if _has_ties(x.get("conf_scores") or x["scores"]) or not exact:
         # with tied scores any tied winner is accepted (the winner depends on sort / file order):
         # compare the number of PSM-level rows only
         for fn in x["conf"]:
@@ -131,7 +132,9 @@ def _equal(x, y, exact):
         if len(ra) != len(rb):
             return fn
         for (i1, s1, q1), (i2, s2, q2) in zip(ra, rb):
-            if i1 != i2 or not _close(Fraction(s1), Fraction(s2), exact) or not _close(q1, q2, exact):
+            # the score column passes through text intermediates (inexact float parsing: 1 ulp): tolerance;
+            # ids, order and q-values exactly
+            if i1 != i2 or not _close(Fraction(s1), Fraction(s2), False) or not _close(q1, q2, exact):
                 return fn
     if x["leftovers"] != y["leftovers"]:
         return "leftovers"
@@ -155,8 +158,8 @@ def run_case(case):
         m, i = c02.compare(cfg0, got0)
         if not c02.same(cfg0, m, i):
             impl["baseline_vs_model"] = "brew"
-        elif not _has_ties(got0[1]["scores"]):
-            c3 = {"files": case["files"], "scores": got0[1]["scores"], "dedup": True, "rollup": True, "decoys": True,
+        elif not _has_ties(got0[1]["conf_scores"]):
+            c3 = {"files": case["files"], "scores": got0[1]["conf_scores"], "dedup": True, "rollup": True, "decoys": True,
                   "prefixes": len(case["files"]) > 1, "chunks": {}, "levels": [], "descs": True}
             mf = c03._model(c3)
             obs_files = {k: [(i1, q1) for i1, s1, q1 in v] for k, v in got0[1]["conf"].items()}
